@@ -4,7 +4,7 @@ from fractions import Fraction
 
 from .lit import canon
 
-STYLES = ("repr", "generator", "indented", "fractions", "compact")
+STYLES = ("repr", "generator", "indented", "fractions", "compact", "crlf")
 
 
 def _num(x, style, rng):
@@ -61,6 +61,8 @@ def render(games, style, seed=0):
         txt = ("# Board:\n#\n#   written by hand\n\n" +
                str(games).replace("[[", "[\n[").replace("], ", "],\n").replace("[(", " " * 16 + "[(")
                .replace("\n'", "\n" + " " * 12 + "'") + "\n")
+    elif style == "crlf":
+        txt = ("# edited on another OS\n" + _val(games, "indented", rng, 0) + "\n").replace("\n", "\r\n")
     else:
         txt = _val(games, style, rng, 0) + "\n"
         if style == "indented":
